@@ -1,0 +1,18 @@
+//go:build verif
+
+package grpc
+
+import (
+	v1types "buf.build/gen/go/agglayer/interop/protocolbuffers/go/agglayer/interop/types/v1"
+	"github.com/agglayer/aggkit/agglayer/types"
+)
+
+// VerifConvertToProtoImportedBridgeExit exposes convertToProtoImportedBridgeExit to the verification harness.
+func VerifConvertToProtoImportedBridgeExit(ibe *types.ImportedBridgeExit) (*v1types.ImportedBridgeExit, error) {
+	return convertToProtoImportedBridgeExit(ibe)
+}
+
+// VerifConvertToProtoBridgeExit exposes convertToProtoBridgeExit to the verification harness.
+func VerifConvertToProtoBridgeExit(be *types.BridgeExit) *v1types.BridgeExit {
+	return convertToProtoBridgeExit(be)
+}
